@@ -37,7 +37,7 @@ def execute(ctx):
             env = dict(ctx["env"])
             env["VERIF_SHARD"] = str(k)
             env["VERIF_NSHARDS"] = str(n)
-            env.update(r.get("env", {}))
+            env.update({k: v.replace("{work}", work) for k, v in r.get("env", {}).items()})
             cmd = [bins[r.get("bin", "plain")], "-test.run", r["pattern"], "-test.count=1",
                    "-rapid.seed=%d" % (seed * 1000 + k + 1), "-rapid.nofailfile",
                    "-test.timeout=%ds" % tmo] + r.get("args", [])
